@@ -291,15 +291,19 @@ func RunDriver(o DriverOpts) int {
 		return 3
 	}
 	t0 := time.Now()
-	work := filepath.Join(o.VerifDir, "work", fmt.Sprintf("%s-%s-%d", p.ID, o.Tier, os.Getpid()))
+	outDir := o.VerifDir
+	if d := os.Getenv("VERIF_OUT_DIR"); d != "" {
+		outDir = d // self-test runs keep their evidence, replays and scratch files out of /verif
+	}
+	work := filepath.Join(outDir, "work", fmt.Sprintf("%s-%s-%d", p.ID, o.Tier, os.Getpid()))
 	_ = os.RemoveAll(work)
 	if err := os.MkdirAll(work, 0o755); err != nil {
 		fmt.Fprintln(os.Stderr, err)
 		return 3
 	}
 	defer os.RemoveAll(work)
-	_ = os.MkdirAll(filepath.Join(o.VerifDir, "replays"), 0o755)
-	_ = os.MkdirAll(filepath.Join(o.VerifDir, "evidence"), 0o755)
+	_ = os.MkdirAll(filepath.Join(outDir, "replays"), 0o755)
+	_ = os.MkdirAll(filepath.Join(outDir, "evidence"), 0o755)
 
 	procs := o.Procs
 	if procs <= 0 {
@@ -489,7 +493,7 @@ func RunDriver(o DriverOpts) int {
 			continue
 		}
 		nviol++
-		rp := filepath.Join(o.VerifDir, "replays", fmt.Sprintf("%s-%016x.json", p.ID, HashStr(s)))
+		rp := filepath.Join(outDir, "replays", fmt.Sprintf("%s-%016x.json", p.ID, HashStr(s)))
 		rb, _ := json.MarshalIndent(map[string]any{
 			"property": p.ID, "signature": s, "stage": v.Stage, "idx": v.Idx, "seed": o.Seed, "tier": o.Tier.String(),
 			"count": v.Count, "detail": v.Detail,
@@ -540,7 +544,7 @@ func RunDriver(o DriverOpts) int {
 		"technique": p.Technique,
 	}
 	eb, _ := json.MarshalIndent(ev, "", " ")
-	_ = os.WriteFile(filepath.Join(o.VerifDir, "evidence", p.ID+".json"), append(eb, '\n'), 0o644)
+	_ = os.WriteFile(filepath.Join(outDir, "evidence", p.ID+".json"), append(eb, '\n'), 0o644)
 
 	fmt.Printf("%s %s seed=%d: cases=%d evaluations=%d distinct_nontrivial=%d violations=%d known=%d wall=%.1fs\n",
 		p.ID, o.Tier, o.Seed, total.Cases, total.Evals, distinct, nviol, len(knownHit), time.Since(t0).Seconds())
